@@ -299,6 +299,10 @@ pub fn run(ctx: &Arc<Ctx>) {
     for id in crate::alpha::NORM_IDS {
         cases.push(Case::Sign { ks: ANNEX_KS.into(), id: id.into(), msg_len: 20, r: ANNEX_R.into(), tag: "id=normalisation-sensitive".into() });
     }
+    // every identity length 0..=300 (step 3 in the quick tier) at one (master, message, r)
+    for il in (0..=300usize).step_by(ctx.tier.pick(3usize, 1)) {
+        cases.push(Case::Sign { ks: ANNEX_KS.into(), id: format!("len:{}", il), msg_len: 20, r: ANNEX_R.into(), tag: "idlen-sweep".into() });
+    }
     // every message length 0..=300 at one (master, identity, r): the hash input 02 || M || w crosses every buffer size
     for ml in 0..=ctx.tier.pick(300usize, 1200) {
         cases.push(Case::Sign { ks: ANNEX_KS.into(), id: "Alice".into(), msg_len: ml, r: ANNEX_R.into(), tag: "mlen-sweep".into() });
